@@ -545,10 +545,20 @@ class _LimEnv(Env):
     local_namespace_limit = 400
 
 
+class _LimEnv2(Env):
+    loop_iteration_limit = 3
+    output_stream_limit = 8
+    local_namespace_limit = 150
+
+
+class _LimEnv3(Env):
+    output_stream_limit = 3
+
+
 # the same member under several configurations: the two render paths must agree in each of them
 _CENVS = {"strict": _corpus.make_env(Env), "lax": _corpus.make_env(Env, tolerance=_Mode.LAX), "warn": _corpus.make_env(Env, tolerance=_Mode.WARN),
           "autoescape": _corpus.make_env(Env, autoescape=True), "strict undefined": _corpus.make_env(Env, undefined=_StrictUndefined),
-          "tight limits": _corpus.make_env(_LimEnv)}
+          "tight limits": _corpus.make_env(_LimEnv), "tighter limits": _corpus.make_env(_LimEnv2), "output limit 3": _corpus.make_env(_LimEnv3)}
 
 
 def _corpus_check(w2, w1, leaf, d):
@@ -599,7 +609,7 @@ DETAIL = globals().get("DETAIL", {})
 DETAIL["c01_corpus"] = _det
 DETAIL["c01_corpus_analyze"] = _det_a
 CONDITIONS.append({"fn": "c01_corpus_analyze", "quick": 120, "thorough": 240, "sel_only": True, "bounds": _corpus.BOUNDS + "; analyze() vs analyze_async(), with and without partials, every reported span compared"})
-CONDITIONS.append({"fn": "c01_corpus", "quick": 180, "thorough": 300, "sel_only": True, "bounds": _corpus.BOUNDS + "; strict, lax, warn, autoescape, StrictUndefined and tight-limit environments"})
+CONDITIONS.append({"fn": "c01_corpus", "quick": 240, "thorough": 300, "sel_only": True, "bounds": _corpus.BOUNDS + "; strict, lax, warn, autoescape, StrictUndefined and three tight-limit environments"})
 
 ASSUMPTIONS = [
     "template sources are the concrete skeletons of harness/c01.py; x, y in None|bool|int(-1..3)|str<=1, z bool, list length 0..3 are symbolic",
